@@ -56,4 +56,33 @@ theorem reopen_state {s : FS} (h : FileStore.Inv s) :
 
 theorem reopen_abs (s : FS) : abs (reopen s) = abs s := abs_of_log rfl
 
+theorem descT_unique {l : List FTxn} (hs : DescT l) :
+    ∀ a ∈ l, ∀ b ∈ l, a.tid = b.tid → a = b := by
+  induction l with
+  | nil => intro a ha; cases ha
+  | cons r l ih =>
+    obtain ⟨h1, h2⟩ := List.pairwise_cons.1 hs
+    intro a ha b hb hab
+    rcases List.mem_cons.1 ha with ha | ha
+    · rcases List.mem_cons.1 hb with hb | hb
+      · rw [ha, hb]
+      · have := h1 b hb; rw [ha] at hab; omega
+    · rcases List.mem_cons.1 hb with hb | hb
+      · have := h1 a ha; rw [hb] at hab; omega
+      · exact ih h2 a ha b hb hab
+
+/-- `_txn_find` finds every committed transaction (since the repair: also a short first one) -/
+theorem txnFind_total {s : FS} (h : FileStore.Inv s) {t : FTxn} (ht : t ∈ s.log) :
+    ∃ older, txnFind t.tid s.log = some (t, older) := by
+  have hsome := txnFind_complete ht rfl
+  cases hf : txnFind t.tid s.log with
+  | none => simp [hf] at hsome
+  | some to =>
+    obtain ⟨t', older⟩ := to
+    obtain ⟨newer, hlog, htid⟩ := txnFind_some hf
+    have ht' : t' ∈ s.log := by rw [hlog]; simp
+    have := descT_unique (logInv_descT h.log) t' ht' t ht htid
+    subst this
+    exact ⟨older, rfl⟩
+
 end Proofs.FileStoreTop
